@@ -98,7 +98,12 @@ class StressPool:
                           ld=self.A['make_dir'](directives.set_loop_options),
                           lu=self.A['make_dir'](self.A['record']))
         for g in (self.A, self.B):
-            del g['make'], g['make_dir']
+            poolmod.forget_factories(g)
+        # a function whose source cannot be read: every conversion of it fails before transform_ast (ParseFail)
+        self.N = poolmod.new_globals('c10pool_N', 100)
+        exec(compile(poolmod.NOSRC, '<c10-no-source-%d>' % fresh_version(), 'exec'), self.N)
+        self.slots['ns'] = self.N['nosrc']
+        reg.expected_fail.add(reg.code_id(self.N['nosrc'].__code__))
         self.make_q()
 
     def make_q(self):
@@ -109,7 +114,7 @@ class StressPool:
         self.slots.update(q1=self.QA['make'](1, 5), q2=self.QA['make'](2, 5), q3=self.QA['make'](1, 6),
                           qB=self.QB['make'](1, 5))
         for g in (self.QA, self.QB):
-            del g['make'], g['make_dir']
+            poolmod.forget_factories(g)
 
     def drop_q(self):
         """Drops the q family; returns [(code id, weakref to the code object)]."""
@@ -128,7 +133,7 @@ class StressPool:
         code = self.sources.compile(version)
         with self.lock:
             exec(code, self.A)
-            del self.A['make'], self.A['make_dir']
+            poolmod.forget_factories(self.A)
             self.slots['pA'] = self.A['plain']
             self.slots['hA'] = self.A['helper']
             self.slots['pA8'] = poolmod.clone_with_defaults(self.A['plain'], (8,))
@@ -136,7 +141,7 @@ class StressPool:
 
 
 def family(slot):
-    return {'p': 'plain', 'h': 'helper', 'q': 'closure', 'l': 'looper'}.get(slot[0], slot)
+    return {'p': 'plain', 'h': 'helper', 'q': 'closure', 'l': 'looper', 'n': 'nosource'}.get(slot[0], slot)
 
 
 # ---------------------------------------------------------------------------------------------
@@ -147,7 +152,7 @@ def plan_jobs(seed, tier):
     if tier == 'quick':
         shape = [(1, 4), (2, 16), (4, 26), (8, 24), (16, 18), (32, 10)]
     else:
-        shape = [(1, 20), (2, 130), (3, 100), (4, 150), (8, 160), (16, 140), (32, 100)]
+        shape = [(1, 20), (2, 180), (3, 140), (4, 220), (8, 220), (16, 190), (32, 140)]
     for nthreads, count in shape:
         for _ in range(count):
             jobs.append(dict(id=len(jobs) + 1, seed=rnd.randrange(1 << 30), nthreads=nthreads))
@@ -158,7 +163,7 @@ def plan_jobs(seed, tier):
     return jobs
 
 
-SLOTS = ['pA', 'pB', 'pA8', 'q1', 'q2', 'q3', 'qB', 'hA', 'ld', 'lu']
+SLOTS = ['pA', 'pB', 'pA8', 'q1', 'q2', 'q3', 'qB', 'hA', 'ld', 'lu', 'ns']
 
 
 def _make_items(rnd, nthreads, slots, ois, script=None):
@@ -185,9 +190,11 @@ def _make_items(rnd, nthreads, slots, ois, script=None):
             plan = None
             if entry == 'transform':
                 q = rnd.random()
-                if q < 0.10:
+                if q < 0.08:
                     plan = ('fail',)
-                elif q < 0.24:
+                elif q < 0.13:
+                    plan = ('pfail',)
+                elif q < 0.26:
                     plan = ('nest', rnd.choice(slots), rnd.choice(ois), rnd.random() < 0.25, rnd.random() < 0.5)
             items.append(('req', slot, oi, entry, plan, rnd.choice((-1, 0, 3))))
         out.append(items)
@@ -318,6 +325,8 @@ def run_job(job):
             return None
         if spec[0] == 'fail':
             return probemod.Plan(fail=True)
+        if spec[0] == 'pfail':
+            return probemod.Plan(parse_fail=True)
         _, nslot, noi, nfail, propagate = spec
         nfn = pool.slots.get(nslot)
         if nfn is None:
@@ -391,7 +400,7 @@ def run_job(job):
         exec(code, P)
         del code
         fn = P['plain'] if which == 'plain' else P['make'](1, 5)
-        del P['make'], P['make_dir']
+        poolmod.forget_factories(P)
         pmemo = {}
         for oi in ois:
             probe.tls.next_plan = None
@@ -428,6 +437,9 @@ def run_job(job):
         try:
             reference(fn, opts[oi])
         except Exception as e:  # noqa: BLE001
+            if slot == 'ns' and type(e).__name__ in (type(exc).__name__, 'InaccessibleSourceCodeError'):
+                stats['expected_failures'] = stats.get('expected_failures', 0) + 1
+                return      # the fresh conversion fails in the same way: the request behaved like it
             raise common.MachineryError('C10 pool function %s does not convert on a fresh transpiler: %r' % (slot, e))
         diff('c10:request-raised:%s' % type(exc).__name__,
              'a request raised %s although a fresh conversion of that function succeeds' % type(exc).__name__,
@@ -439,6 +451,12 @@ def run_job(job):
             for s in st:
                 if s['exc'] is not None:
                     check_exception(s['fn'], s['oi'], s['slot'], s['entry'], s['exc'])
+                elif s['slot'] == 'ns':
+                    # conversion fails (no source): the calling entry points fall back to the original function
+                    want = poolmod.behaviour(s['fn'], inputs=(s['x'],))[0]
+                    if s['val'] != want:
+                        diff('c10:fresh-diff:call-value:nosource', 'fallback call of an unconvertible function gives another result',
+                             slot='ns', got=s['val'], original=want)
                 else:
                     compare(s['fn'], s['oi'], s['g'], s['slot'], s['entry'], s['x'], s['val'], memo, s['fac'])
             del st[:]
@@ -473,6 +491,8 @@ def run_job(job):
             barrier.abort()
 
     hung = False
+    import logging as _logging
+    _logging.disable(_logging.WARNING)      # converted_call logs a warning whenever it falls back
     spy.install()
     api._TRANSPILER = Router()
     try:
@@ -516,6 +536,7 @@ def run_job(job):
     finally:
         sys.setswitchinterval(old_switch)
         api._TRANSPILER = old_transpiler
+        _logging.disable(_logging.NOTSET)
         spy.remove()
         tempfile.tempdir = old_tmp
     if crashed:
@@ -529,7 +550,7 @@ def run_job(job):
     seen = set()
     for (tid, cid, eid, oid, exc) in probe.errors:
         k = type(exc).__name__
-        if k in seen:
+        if k in seen or cid in reg.expected_fail:
             continue
         seen.add(k)
         diff('c10:request-raised:%s' % k,
